@@ -1318,6 +1318,13 @@ def merge_changes(change_chunks, doc, tag_type='ins'):
                             index = current_content.index(name)
                             current_content = current_content[index + 1:]
                             doc.append(chunk)
+                        elif name in empty_tags:
+                            # The start tags of these elements are never
+                            # tracked as open (see below), so their end tags
+                            # close nothing we know about. Don't break the
+                            # change element inside them (an `<iframe>` would
+                            # swallow the `</ins>` as text).
+                            doc.append(chunk)
                         else:
                             # only a malformed document should hit this case
                             # where tags aren't properly nested ¯\_(ツ)_/¯
@@ -1579,6 +1586,9 @@ def merge_change_groups(change_chunks, doc, tag_type=None):
                         if name in current_content:
                             index = current_content.index(name)
                             current_content = current_content[index + 1:]
+                            group.append(chunk)
+                        elif name in empty_tags:
+                            # Never tracked as open (see `merge_changes()`).
                             group.append(chunk)
                         else:
                             # only a malformed document should hit this case
